@@ -155,9 +155,37 @@ ZRoundWhy(r) ==
 \* r.cur is the Zoned after the step (zone slot r.zi), r.prev the one before
 \* (slot r.pzi); r.eq / r.ord / r.heq compare them through the public
 \* Eq / Ord / Hash; r.keep = 1 when the operation must keep the instant.
+\* the with-builders: replace civil fields (or the offset) and resolve again.  Defaults as documented:
+\* offset conflicts prefer the (original or given) offset when the zone assigns it to the new civil time,
+\* otherwise the civil time is resolved with the compatible strategy.
+\* Returns <<"skip">>, <<"err">> or <<"at", instant>>.
+WithExpect(z, r) ==
+  LET t == InstOfZ(r.prev)  c == CivilAt(z, t)  o == OffAt(z, t)  dt == DateOfEpochDay(c[1])
+      Prefer(c2, off) == IF ~Settled(z, c2) THEN <<"skip">>
+                         ELSE LET e == IF off \in Pre(z, c2) THEN InstOfCivil(c2, off) ELSE Compat(z, c2) IN
+                              IF e # <<>> /\ InTsRange(e) THEN <<"at", e>> ELSE <<"err">>
+  IN CASE r.args.kind = "hm" -> Prefer(<<c[1], r.args.h * 3600 + r.args.mi * 60 + (c[2] % 60), c[3]>>, o)
+       [] r.args.kind = "md" -> IF ~ValidDate(dt[1], r.args.m, r.args.d) THEN <<"err">>
+                                ELSE Prefer(<<EpochDayOf(dt[1], r.args.m, r.args.d), c[2], c[3]>>, o)
+       [] r.args.kind = "off" ->
+            (CASE r.args.oc = "always-offset" -> LET e == InstOfCivil(c, r.args.off) IN IF InTsRange(e) THEN <<"at", e>> ELSE <<"err">>
+               [] r.args.oc = "always-tz" -> (IF ~Settled(z, c) THEN <<"skip">> ELSE LET e == Compat(z, c) IN IF e # <<>> THEN <<"at", e>> ELSE <<"err">>)
+               [] r.args.oc = "prefer" -> Prefer(c, r.args.off)
+               [] OTHER -> IF ~Settled(z, c) THEN <<"skip">>
+                           ELSE IF r.args.off \in Pre(z, c) THEN <<"at", InstOfCivil(c, r.args.off)>> ELSE <<"err">>)
+       [] OTHER -> <<"skip">>
+WithWhy(z, r) ==
+  LET e == WithExpect(z, r) IN
+  IF e[1] = "skip" THEN ""
+  ELSE IF e[1] = "err" THEN (IF r.cur.st = "err" THEN "" ELSE "'" \o r.name \o "' accepted although the documented resolution fails")
+  ELSE IF r.cur.st # "ok" THEN "'" \o r.name \o "' refused a resolvable civil time"
+  ELSE IF InstOfZ(r.cur) # e[2] THEN "'" \o r.name \o "': not the instant the documented resolution gives"
+  ELSE ""
+
 ZStepWhy(r) ==
   LET z == ZoneOf(r.zi) IN
   IF r.cur.st = "panic" THEN "operation '" \o r.name \o "' panicked"
+  ELSE IF r.args.kind # "none" /\ r.zi = r.pzi /\ WithWhy(z, r) # "" THEN WithWhy(z, r)
   ELSE IF r.cur.st # "ok" THEN ""
   ELSE LET w == WfWhy(z, r.cur) IN
     IF w # "" THEN w \o " (after " \o r.name \o ")"
